@@ -20,6 +20,11 @@ CLAIMED = {
             "pairs, linear, satisfy Parseval, equal the centred DFT (origin at the centre sample) and obey the shift "
             "theorem for every complex input and every delta>0 at each listed size (1-D N<=5 quick / <=8 thorough, "
             "2-D N<=4 / <=6, batch shapes); decided per size by z3 over exact algebraic twiddles", ""),
+    "C17": ("5 C17", "all converters of atmos_conversions and _astronomy: the six inverse pairs (explicit and default wavelength), "
+            "composites = compositions, scaling exponents (lambda^(6/5), Cn2^(-3/5), lambda^(-1/5), r0^(-5/3), d^(-1/3)), "
+            "single-layer theta0/tau0 = C r0/h with 0.313<C<0.315, axis argument = loop over profiles for rank 1-3 arrays and every "
+            "axis, magnitude<->flux inverse, 5 mag = x100, proportionality to area/exposure, all 12 bands; for every positive "
+            "symbolic argument (algebraic powers y^q=x^p)", "10**x/log10 are uninterpreted with instantiated exp/log axioms; decimal literals read at their decimal value."),
 }
 
 NOT_APPLICABLE = {
